@@ -35,7 +35,7 @@ class KernelS(KernelX):
             nxt = []
             for st in states:
                 nxt.extend(self.exec_stmt(s, st))
-            if len(nxt) > MAX_PATHS:
+            if len(nxt) > (self.max_paths or MAX_PATHS):
                 nxt = self._force_merge(nxt)
             states = nxt
         return states
@@ -78,6 +78,8 @@ class KernelS(KernelX):
         return []
 
     def st_Raise(self, s, st):
+        if self.record_stores:
+            self.raises.append((s, st.copy()))
         return []
 
     def st_Break(self, s, st):
@@ -189,16 +191,24 @@ class KernelS(KernelX):
         c = self.cond(s.test, st)
         out = []
         branches = []
-        for facts, body in ((c.tf, s.body), (c.ff, s.orelse)):
-            if facts is not None and not prove.feasible(st, facts):
-                branches.append(None)
-                continue
-            b = st.copy()
-            if facts:
-                for l in facts:
-                    b.facts.add_ge(l)
-            res = self.exec_block(body, [b]) if body else [b]
-            branches.append(res)
+        for want, facts, body in ((True, c.tf, s.body), (False, c.ff, s.orelse)):
+            alts = [facts]
+            if self.split_dnf and (facts is None or isinstance(s.test, ast.BoolOp)):
+                d = self.dnf(s.test, st, want)
+                if d is not None and 1 <= len(d) <= 4:
+                    alts = d
+            res_all = []
+            any_live = False
+            for facts in alts:
+                if facts is not None and not prove.feasible(st, facts):
+                    continue
+                any_live = True
+                b = st.copy()
+                if facts:
+                    for l in facts:
+                        b.facts.add_ge(l)
+                res_all.extend(self.exec_block(body, [b]) if body else [b])
+            branches.append(res_all if any_live else None)
         live = [b for b in branches if b is not None]
         if len(live) == 1:
             return live[0]
@@ -212,7 +222,7 @@ class KernelS(KernelX):
         # both fall through: merge unless the branches define integer/array state differently under a flag
         if len(ta) == 1 and len(tb) == 1:
             a, b = ta[0], tb[0]
-            if c.flag and self._differs(a, b):
+            if (c.flag or self.split_dnf) and self._differs(a, b):
                 return [a, b]
             return [self.join(a, b, c)]
         return ta + tb
@@ -273,6 +283,8 @@ class KernelS(KernelX):
                 r.env[k] = Int(Lin.sym(s))
             elif isinstance(va, Arr) and isinstance(vb, Arr):
                 r.env[k] = Arr(fresh(k), None)
+            elif (isinstance(va, Int) and isinstance(vb, Opaque)) or (isinstance(vb, Int) and isinstance(va, Opaque)):
+                r.env[k] = Int(Lin.sym(fresh(k)))
             elif isinstance(va, Arr) and isinstance(vb, NoneV) or isinstance(vb, Arr) and isinstance(va, NoneV):
                 arr = va if isinstance(va, Arr) else vb
                 ns = fresh('isnone')
@@ -303,12 +315,13 @@ class KernelS(KernelX):
         cn = dotted(it.func) if isinstance(it, ast.Call) else ''
         assigned = stores_in(ast.Module(body=s.body, type_ignores=[]))
         pre = st
+        args = [self.ev(a, st) for a in it.args] if cn in RANGE else None
+        src = self.ev(it, st) if cn not in RANGE else None
         head = st.copy()
         counters = self._counters(s, assigned, head)
         self._havoc(head, assigned, s)
         lo = hi = None
         if cn in RANGE:
-            args = [self.ev(a, st) for a in it.args]
             if len(args) == 1:
                 lo, hi = Int(0), args[0]
             elif len(args) >= 2:
@@ -329,7 +342,6 @@ class KernelS(KernelX):
                     if isinstance(lo, Int) and step is None:
                         head.facts.add_le(cs, c0 + v - lo.lin)
         else:
-            src = self.ev(it, st)
             tgt = s.target
             if cn == 'enumerate' and isinstance(tgt, ast.Tuple) and len(tgt.elts) == 2 and it.args:
                 a = self.ev(it.args[0], st, quiet=True)
